@@ -261,8 +261,8 @@ theorem apply1_delete_files (climb : Bool) (t : Tree) (s : Store) (n : NodeSt) :
 /-- with the climbing clean-up: a delete that empties `g/` removes it -/
 theorem apply1_delete_climbs (t : Tree) (s : Store) (n : NodeSt) (ht : t.WF)
     (hb : t.gEmpty = false ∨ t.gdir = false) :
-    (apply1 TCfg.climbing t s n .delete).1.gEmpty = true → (apply1 TCfg.climbing t s n .delete).1.gdir = false := by
-  simp only [apply1, step, TCfg.climbing, Cfg.current]
+    (apply1 TCfg.current t s n .delete).1.gEmpty = true → (apply1 TCfg.current t s n .delete).1.gdir = false := by
+  simp only [apply1, step, TCfg.current, Cfg.current]
   rw [delete_all_sweep .atomicReplace _ (Or.inl rfl)]
   obtain ⟨h1, h2, h3⟩ := ht
   cases s <;>
